@@ -247,6 +247,10 @@ OPS = [
     Op("T.inverse()", ("T2",), lambda G, t: t.inverse(), "obj"),
     Op("T**2", ("T2",), lambda G, t: t**2, "obj"),
     Op("T**-1", ("T2",), lambda G, t: t**-1, "obj"),
+    Op("T**0", ("T2",), lambda G, t: t**0, "obj"),
+    Op("T**3", ("T2",), lambda G, t: t**3, "obj"),
+    Op("T3**0", ("T3",), lambda G, t: t**0, "obj"),
+    Op("T3**-2", ("T3",), lambda G, t: t**-2, "obj"),
     Op("T3*P3", ("T3", "P3"), lambda G, t, p: t * p, "obj"),
     Op("T3*E", ("T3", "E3"), lambda G, t, e: t * e, "obj"),
     Op("T3*L3", ("T3", "L3"), lambda G, t, l: t * l, "obj"),
